@@ -112,6 +112,17 @@ def gen_specs(ctx, baseline):
     for tail in bad_tail[:3]:
         pl = {'rep': [H(b'L' * 62 + b'\r\n'), 2200], 'head': H(HDR), 'tail': H(tail)}
         add(spec_for(['100 0 1', 'all all 0'], payload=pl), 'child-dies-then-malformed')
+    # (D) an AUTH command (accepted or refused) in the same session as a queue child that dies while the message is
+    # written: the checkpassword backend forks and fiddles with signal masks; a SIGPIPE that is no longer blocked in
+    # the server turns the 451 into a dead connection
+    import base64
+    auth = b'AUTH PLAIN ' + base64.b64encode(b'\0zoe\0pw')
+    for verdict in ('x0', 'x1'):
+        for mode in ('0 0 1', '100 0 1', '%d 0 0' % (pb // 2)):
+            w = {'args': ['example.org', '@CHKPW@', 'rec', verdict]}
+            s = spec_for([mode, 'all all 0'], size=4 * pb, world=w)
+            s['pre'] = s['pre'] + [H(auth)]
+            add(s, 'auth-then-epipe/' + verdict)
     return specs
 
 
@@ -209,7 +220,10 @@ def run_specs(ctx, binary, specs, name):
         if spec.get('world', {}).get('env', {}).get('QMAILQUEUE') or 'probe-error' in spec.get('tag', ''):
             continue
         c1, _, f1 = dataq.split_window(wins[1], len(MSG2)) if len(wins) > 1 else ([], None, [])
-        if follow != ['250', '250', '250'] or c1 != ['354', '250'] or f1 != ['221'] or len(wins) != 2:
+        greet_ok = ['250']
+        if 'epipe-then-auth' in spec.get('tag', ''):
+            greet_ok = ['235'] if spec['tag'].endswith('x0') else ['535']      # the follow-up starts with AUTH instead of RSET
+        if follow != greet_ok + ['250', '250'] or c1 != ['354', '250'] or f1 != ['221'] or len(wins) != 2:
             fails.append((case, 'follow-up replies %s %s %s' % (follow, c1, f1), 'fails follow-up-transaction'))
             continue
         h2 = r.handoffs[-1] if r.handoffs else None
